@@ -158,8 +158,11 @@ def _build():
     g3 = N.mkgrid('3.0', [], [('a', [])], [(N.mkgrid('3.0', [], [('b', [])], [(N.mkgrid('3.0', [], [('c', [])], [(one,)]),)]),)])
     g4 = N.mkgrid('3.0', [], [('a', []), ('b', [])], [(('str', '>>'), ('str', 'a\nb')), (('list', (one,)), N.mkdict([('k', sa)]))])
     g5 = N.mkgrid('2.0', [], [('a', [])], [(one,)])
-    for i, g in enumerate([g0, g1, g2, g3, g4, g5]):
-        add(E('grid:%d' % i, g, minver='3.0', rep=i in (1, 2)))
+    # versions spelled with a third group: equal to 3.0 / 2.0 as versions, but a different spelling that survives as written
+    g6 = N.mkgrid('3.0.0', [], [('a', [])], [(('list', (one,)),), (na,)])
+    g7 = N.mkgrid('2.0.0', [('m', mk)], [('a', [])], [(one,)])
+    for i, g in enumerate([g0, g1, g2, g3, g4, g5, g6, g7]):
+        add(E('grid:%d' % i, g, minver='3.0', rep=i in (1, 2, 6)))
     return V
 
 
